@@ -17,6 +17,7 @@ import (
 type OpDesc struct {
 	Builtin int    `json:"b,omitempty"` // ComparisonOperator value (1..6 defined); used when User is false
 	User    bool   `json:"u,omitempty"`
+	Slice   bool   `json:"sl,omitempty"` // user operator of an uncomparable Go type (a slice)
 	Text    string `json:"text,omitempty"`
 	Ctx     string `json:"ctx,omitempty"`
 }
@@ -27,9 +28,18 @@ type userOp struct{ text, ctx string }
 func (o userOp) String() string  { return o.text }
 func (o userOp) Context() string { return o.ctx }
 
+// sliceOp is a user-defined Operator whose Go type cannot be compared with ==.
+type sliceOp []string
+
+func (o sliceOp) String() string  { return o[0] }
+func (o sliceOp) Context() string { return o[1] }
+
 func (o *OpDesc) Build() stk.Operator {
 	if o == nil {
 		return nil
+	}
+	if o.User && o.Slice {
+		return sliceOp{o.Text, o.Ctx}
 	}
 	if o.User {
 		return userOp{o.Text, o.Ctx}
@@ -449,7 +459,7 @@ func (g *TreeGen) Op() *OpDesc {
 		return &OpDesc{Builtin: []int{0, 7, 200}[g.R.Intn(3)]}
 	}
 	if g.R.Pct(g.UserOpPct) {
-		return &OpDesc{User: true, Text: g.pick([]string{"~=", "in", ":="}), Ctx: "custom"}
+		return &OpDesc{User: true, Slice: g.R.Pct(30), Text: g.pick([]string{"~=", "in", ":="}), Ctx: "custom"}
 	}
 	return &OpDesc{Builtin: 1 + g.R.Intn(6)}
 }
